@@ -20,6 +20,15 @@ The settings slot is observed through a logging subclass of collections.deque th
 maxlen; task.settings through a property of the scripted task class; _TaskThread.run through a wrapper
 that logs its return.  These are the anchored observation points (_state/_state_cond, _settings_fifo).
 
+Also covered: the task constructor raising (any exception class: make_task must raise QMI_TaskInitException with
+the thread joined and nothing left — the same task name can be made and run again); the exception class raised
+by scripted run() bodies is an input (fixed bucket: Exception subclasses, a custom BaseException, SystemExit,
+KeyboardInterrupt, QMI_TaskStopException and a subclass); in a share of the schedules every source line of
+update_settings / set_settings / get_pending_settings / _TaskThread.run / start_task / stop_task is a scheduling
+point (dsched.enable_line_yields; the deque probe then adds none), random and as line-level DFS; real QMI_LoopTask
+subclasses with scripted iteration durations under virtual time against theories/C10/ModelLoop.v (run()'s local
+next_time is read from its frame at every loop_iteration / loop_finalize).
+
 Correspondence = trace acceptance: the Coq model (theories/C10) must accept the recorded interleaving and
 produce, label by label, the results the implementation produced, the same number of run() invocations
 and the same thread-exited flag.  Independent oracle: C10 restated on API-level observations with
